@@ -2027,6 +2027,14 @@ func (d *Data) StreamBlocks(ctx *datastore.VersionedCtx, w http.ResponseWriter, 
 	}
 	**/
 
+	// a region with too many rows of blocks for one range query each is served by one scan
+	// over its Z range instead
+	rowsZ := int64(endBlockCoord[2]) - int64(begBlockCoord[2]) + 1
+	rowsY := int64(endBlockCoord[1]) - int64(begBlockCoord[1]) + 1
+	if dvid.CheckBlockRowScans(rowsY, rowsZ) != nil {
+		useAllScan = true
+	}
+
 	if _, err := w.Write([]byte("{")); err != nil {
 		return err
 	}
@@ -2111,11 +2119,10 @@ func (d *Data) GetRegionSynapses(ctx *datastore.VersionedCtx, ext *dvid.Extents3
 
 	// One range query is made per (y,z) row of blocks: refuse regions that would need more
 	// queries than any stored volume has rows, instead of looping (practically) forever.
-	const maxBlockRows = 1 << 24
 	rowsZ := int64(endBlockCoord[2]) - int64(begBlockCoord[2]) + 1
 	rowsY := int64(endBlockCoord[1]) - int64(begBlockCoord[1]) + 1
-	if rowsZ > 0 && rowsY > 0 && rowsZ*rowsY > maxBlockRows {
-		return nil, fmt.Errorf("requested region spans %d x %d rows of blocks, more than the %d supported per request", rowsY, rowsZ, maxBlockRows)
+	if err := dvid.CheckBlockRowScans(rowsY, rowsZ); err != nil {
+		return nil, err
 	}
 
 	// d.RLock()
